@@ -922,7 +922,9 @@ pub fn gen_frag(rng: &mut Rng, k: &FragKnobs) -> FragCase {
     let start: u64 = if k.boundary {
         *rng.pick(&[0u64, (1 << 32) - 3000, (1u64 << 32) + 1, u64::MAX - 100_000, 1 << 53])
     } else {
-        *rng.pick(&[0u64, 0, 1000, 90000, 123456789])
+        // mostly small; sometimes a few frames short of 2^32 / 2^33 ticks (a live stream 13 h / 26 h in), so that
+        // consecutive fragments straddle the point where the decode time needs its upper word
+        *rng.pick(&[0u64, 0, 0, 1000, 90000, 123456789, (1 << 32) - 9000, (1 << 32) - 20011, (1 << 33) - 12000])
     };
     let mut dts = start;
     let mut first = true;
